@@ -172,6 +172,13 @@ static bool normalise_action(SutAction& a, const SutView* v) {
 	if (a.kind == A_CANCEL && W.activation) return false;
 	if (a.kind == A_CHANGE_WITH && g_info->payload_kind == P_VOID) { a.kind = A_CHANGE_TO; a.has_payload = 0; }
 	if (a.kind == A_PLAN_APPEND_WITH && g_info->payload_kind == P_VOID) { a.kind = A_PLAN_APPEND; a.has_payload = 0; }
+	if (a.kind != A_PLAN_WALK && a.mask[31]) {
+		// "self": the state this callback belongs to (for the root: the state that was active when the call began)
+		const int self = v->cls != SUT_INVALID ? v->cls : (W.open_at_start >= 0 ? W.open_at_start : 0);
+		if (a.mask[31] & 1) a.a = static_cast<uint8_t>(self);
+		if (a.mask[31] & 2) a.b = static_cast<uint8_t>(self);
+		a.mask[31] = 0;
+	}
 	if (a.kind == A_CHANGE_TO || a.kind == A_CHANGE_WITH || a.kind == A_SUCCEED || a.kind == A_FAIL) a.a = static_cast<uint8_t>(a.a % N);
 	if (a.kind == A_PLAN_APPEND || a.kind == A_PLAN_APPEND_WITH) { a.a = static_cast<uint8_t>(a.a % N); a.b = static_cast<uint8_t>(a.b % N); }
 	if (a.kind == A_CHANGE_TO || a.kind == A_PLAN_APPEND) { a.has_payload = 0; memset(a.payload, 0, sizeof(a.payload)); }
@@ -368,7 +375,11 @@ static void run_simple(int idx, int kind, const Op* op, int op_index) {
 	if (!ok) return;
 	if (kind == OP_EXIT && T.slot.has) { drain(idx, op_index); observe(n, x.before); begin_ctx(n, idx, x, op, false); }
 	x.executed = true;
-	x.a = (kind == OP_REPLAY_TRANSITION && x.a == SUT_INVALID) ? SUT_INVALID : x.a;
+	if (kind == OP_CHANGE_TO || kind == OP_CHANGE_WITH || kind == OP_IMM_CHANGE_TO || kind == OP_IMM_CHANGE_WITH || kind == OP_PLAN_APPEND || kind == OP_PLAN_APPEND_WITH || kind == OP_PLAN_FILL || kind == OP_SUCCEED || kind == OP_FAIL) {
+		// c bit0 / bit1: argument a / b names the currently active state
+		if ((x.c & 1) && T.open >= 0) x.a = T.open;
+		if ((x.c & 2) && T.open >= 0) x.b = T.open;
+	}
 	paint_stack(W.fill_kind, W.fill_seed ^ static_cast<uint64_t>(op_index));
 	void* I = n.inst;
 	g_in_sut = 1;
@@ -398,16 +409,21 @@ static void run_simple(int idx, int kind, const Op* op, int op_index) {
 	case OP_FAIL: x.a = static_cast<int>(static_cast<unsigned>(x.a) % N); sut_fail(I, x.a); break;
 	case OP_SAVE: {
 		g_in_sut = 0;
-		mem.assign(g_info->serial_obj_size + 64, 0);
-		uint8_t pat = static_cast<uint8_t>(0x5b + 29 * op_index) | 1;
-		for (size_t i = 0; i < mem.size(); ++i) mem[i] = static_cast<uint8_t>(0xC0 ^ (i * 7));
-		g_in_sut = 1;
-		sut_serial_init(&mem[32], pat);          // a re-used, dirty buffer: save() must fully determine it
-		sut_save(I, &mem[32]);
-		g_in_sut = 0;
-		x.saved_bytes.resize(g_info->serial_bytes); sut_serial_bytes(&mem[32], &x.saved_bytes[0]);
-		for (size_t i = 0; i < 32; ++i) if (mem[i] != static_cast<uint8_t>(0xC0 ^ (i * 7))) x.canary_ok = false;
-		for (size_t i = 32 + g_info->serial_obj_size; i < mem.size(); ++i) if (mem[i] != static_cast<uint8_t>(0xC0 ^ (i * 7))) x.canary_ok = false;
+		// twice, framed by all-zero and by all-one canaries: an OR-ing or an AND-ing stray write shows in one of them
+		std::vector<uint8_t> first;
+		for (int pass = 0; pass < 2; ++pass) {
+			const uint8_t can = pass ? 0xFF : 0x00;
+			mem.assign(g_info->serial_obj_size + 64, can);
+			uint8_t pat = static_cast<uint8_t>(0x5b + 29 * op_index + 7 * pass) | 1;
+			g_in_sut = 1;
+			sut_serial_init(&mem[32], pat);          // a re-used, dirty buffer: save() must fully determine it
+			sut_save(I, &mem[32]);
+			g_in_sut = 0;
+			x.saved_bytes.resize(g_info->serial_bytes); sut_serial_bytes(&mem[32], &x.saved_bytes[0]);
+			for (size_t i = 0; i < 32; ++i) if (mem[i] != can) x.canary_ok = false;
+			for (size_t i = 32 + g_info->serial_obj_size; i < mem.size(); ++i) if (mem[i] != can) x.canary_ok = false;
+			if (pass == 0) first = x.saved_bytes; else if (first != x.saved_bytes) x.canary_ok = false;
+		}
 		W.snaps.push_back(Snapshot());
 		Snapshot& sn = W.snaps.back(); sn.bytes = x.saved_bytes; sn.active = T.active; sn.state = T.open;
 		sn.objmem.assign(mem.begin() + 32, mem.begin() + 32 + g_info->serial_obj_size);
@@ -418,9 +434,11 @@ static void run_simple(int idx, int kind, const Op* op, int op_index) {
 		const Snapshot& sn = W.snaps[static_cast<size_t>(x.a) % W.snaps.size()];
 		x.snapshot_index = static_cast<int>(static_cast<size_t>(x.a) % W.snaps.size());
 		x.saved_active = sn.active; x.saved_state = sn.state;
-		mem = sn.objmem;
+		// framed deterministically, so that even an out-of-bounds read by a broken load() replays exactly
+		mem.assign(sn.objmem.size() + 64, 0);
+		memcpy(&mem[32], &sn.objmem[0], sn.objmem.size());
 		g_in_sut = 1;
-		sut_load(I, &mem[0]);
+		sut_load(I, &mem[32]);
 		g_in_sut = 0;
 		break; }
 	case OP_ENTER: sut_enter(I); break;
